@@ -283,3 +283,14 @@ func init() {
 	}
 	E["("+vmPkg+".AccountRef).Address"] = func(fr *frame, args []value) value { return copyVal(args[0]) }
 }
+
+func init() {
+	// abi.UnpackRevert on data too short to carry a revert reason (what the EVM model returns)
+	externals["github.com/ethereum/go-ethereum/accounts/abi.UnpackRevert"] = func(fr *frame, args []value) value {
+		data, _ := args[0].([]value)
+		if len(data) < 4 {
+			return tuple{"", fr.i.newError("invalid data for unpacking", iface{})}
+		}
+		panic(engineError{"abi.UnpackRevert on revert data not modelled"})
+	}
+}
